@@ -449,6 +449,24 @@ def check_c01(tier, seed):
     # reader does to an unusual name shows only in the continuation on the reopened file)
     for dn, hs in random_batches(seed + 17, tier, 24, 200, 30, dicts=("E", "C", "X"), reopen_p=0.12).items():
         run_batch(out, f"names{dn}", dn, hs)
+    # ... and, name by name: create it (as a stream and as a storage holding a stream), reopen permissively, look it up, try to
+    # create it again, reopen strictly, look it up again
+    sp = gens.sp
+    for dn in ("C", "E", "D", "X"):
+        d = gens.Dict(dn)
+        hs = []
+        for i, n in enumerate(d.valid):
+            other = d.valid[(i + 1) % len(d.valid)]
+            if d.key(other) == d.key(n):
+                continue
+            ops = [{"op": "create_stream", "p": sp([n])}, {"op": "write", "p": sp([n]), "off": 0, "runs": [[7, 100]]},
+                   {"op": "create_storage", "p": sp([other])}, {"op": "create_stream", "p": sp([other, n])},
+                   {"op": "reopen", "mode": "permissive"}, {"op": "entry", "p": sp([n])}, {"op": "create_new_stream", "p": sp([n])},
+                   {"op": "read", "p": sp([n])}, {"op": "create_new_stream", "p": sp([other, n])},
+                   {"op": "reopen", "mode": "strict"}, {"op": "entry", "p": sp([other, n])}, {"op": "remove_stream", "p": sp([n])},
+                   {"op": "exists", "p": sp([n])}]
+            hs.append({"id": f"name_{dn}_{n}", "ver": 3 + i % 2, "heavy": "all", "ops": ops})
+        run_batch(out, f"each-name{dn}", dn, hs)
     return finish(out, "model_checking",
                   "G1b: every transition of the MC_Tree state graph replayed on the real library (last two steps heavy + query battery); "
                   "every transition of the MC_Dir sibling-tree graph (every reachable tree shape x every insertion / removal, 5 keys quick / 6 thorough); "
